@@ -3,6 +3,7 @@ Spec: Quadrature.tla (exact Gaussian moments, code-shaped rule for num_locs <= 3
 method x setting lattice, repeated differentiation of log_normal_cdf through one graph - part "rediff", machine of BackwardOps.tla).  Replay workers live in checks/c13_replay.py, references in checks/c13_ref.py."""
 import os
 import random
+import re
 from fractions import Fraction
 
 from harness import core, tlc
@@ -15,9 +16,13 @@ PID = "C13"
 # (mn, sn, dd): m = mn/dd, s = sn/dd; chosen so that every intermediate of Quadrature.tla stays below 2^31 up to degree 10
 LATTICE = [(mn, sn, 1) for mn in (-2, -1, 0, 1, 2) for sn in (1, 2)] + [(mn, 1, 2) for mn in (-3, -1, 1, 3)]
 # further rationals for the Fraction-only degrees (not dyadic, so the float inputs are rounded)
-EXTRA = [(1, 9, 6), (-15, 8, 12), (21, 5, 15), (0, 3, 1), (-10, 1, 5)]
+EXTRA = [(1, 9, 6), (-15, 8, 12), (21, 5, 15), (0, 3, 1), (-10, 1, 5),
+         # "for all m and v" in orders of magnitude: v = 1e-6, 1e-8, 9, 100; |m| = 0, 3e-3, 0.1, 7, 100
+         (3, 1, 1000), (0, 1, 1000), (1000, 1, 10000), (100, 3, 1), (-7, 10, 1)]
 LOCS_SETTINGS = (0, 5, 10, 40)
 BATCHES = ((), (2,), (3, 2))
+DECADES = tuple(range(-6, 3))                # likelihood parameters (and function means / variances) range over lower bound + 10^e, e in DECADES
+MIN_SPREAD = {"quick": 6, "thorough": 3}     # a batched parameter tensor mixes values at least this many decades apart
 
 
 def tla(v):
@@ -38,7 +43,7 @@ BW_MAX = 3
 BW_UP = {"quick": ["ones", "randA"], "thorough": ["ones", "randA", "randB", "unit"]}
 
 
-def write_mc(workdir, part, instances=(), tier="quick", impure=(), name=None):
+def write_mc(workdir, part, instances=(), tier="quick", impure=(), name=None, floor=None):
     os.makedirs(workdir, exist_ok=True)
     mod = "MC_Quadrature_" + (name or part)
     with open(os.path.join(workdir, mod + ".tla"), "w") as f:
@@ -48,13 +53,14 @@ def write_mc(workdir, part, instances=(), tier="quick", impure=(), name=None):
         f.write("DimsDef == {1, 2, 3}\nShLocsDef == {2, 4}\n")
         f.write("LocSetDef == {%s}\n" % ", ".join(str(k) for k in LOCS_SETTINGS))
         f.write("BatchDef == {%s}\n" % ", ".join(tla(list(b)) for b in BATCHES))
+        f.write("DecDef == (%d)..(%d)\nFloorDef == %d\n" % (DECADES[0], DECADES[-1], -99 if floor is None else floor))
         f.write("BWUpDef == {%s}\nBWImpureDef == {%s}\n====\n" % (", ".join(tla(u) for u in BW_UP[tier]), ", ".join(tla(list(i)) for i in impure)))
     cfg = os.path.join(workdir, mod + ".cfg")
-    inv = {"moments": "MomentsOK", "rule": "RuleOK", "shapes": "ShapesOK", "lattice": "LatticeOK", "rediff": "RediffDerivOK" if impure else "RediffOK"}[part]
-    tlc.write_cfg(cfg, spec="Spec", invariants=[inv],
+    inv = {"params": ["ParamsOK", "FuncOK", "ParamsNoFloorOK"], "moments": "MomentsOK", "rule": "RuleOK", "shapes": "ShapesOK", "lattice": "LatticeOK", "rediff": "RediffDerivOK" if impure else "RediffOK"}[part]
+    tlc.write_cfg(cfg, spec="Spec", invariants=inv if isinstance(inv, list) else [inv],
                   constants={"Part": part, "BWMaxBwd": BW_MAX, "BWUpstreams": "<- BWUpDef", "BWImpure": "<- BWImpureDef", "Instances": "<- InstDef", "MaxDeg": 12, "RuleLattice": "<- LatDef", "ShapeDims": "<- DimsDef",
                              "ShapeRank": 2, "ShapeLocs": "<- ShLocsDef", "LocsSettings": "<- LocSetDef", "BatchShapes": "<- BatchDef",
-                             "DataN": rp.DATA_N, "NumSamples": rp.NUM_SAMPLES, "DefaultLocs": 20})
+                             "Decades": "<- DecDef", "MinSpread": MIN_SPREAD[tier], "ParamK": 2, "ParamFloor": "<- FloorDef", "DataN": rp.DATA_N, "NumSamples": rp.NUM_SAMPLES, "DefaultLocs": 20})
     return os.path.join(workdir, mod + ".tla"), cfg
 
 
@@ -89,19 +95,30 @@ def run(ck):
     insts = [dict(mn=a, sn=b, dd=d, coef=c) for (a, b, d) in LATTICE for c in coefs]
     jobs = []
     tw = max(1, min(4, core.NPROC // 3))
-    for part in ("moments", "rule", "shapes", "lattice", "rediff"):
+    PARTS = ("moments", "rule", "shapes", "lattice", "rediff", "params")
+    for part in PARTS:
         mod, cfg = write_mc(wd, part, insts if part == "moments" else (), tier=ck.tier)
-        jobs.append(((mod, cfg), dict(name=PID + "/" + part, dump=True, check=False, workers=tw, timeout=900, coverage=(part != "rediff"))))
+        jobs.append(((mod, cfg), dict(name=PID + "/" + part, dump=True, check=False, workers=tw, timeout=900, coverage=(part not in ("rediff", "params")))))
     # vacuity guard of the histories: a backward that overwrites ctx.denominator must be found, and only by a history with two passes
     mod, cfg = write_mc(wd, "rediff", (), tier=ck.tier, impure=[("lncdf", "denominator")], name="rediff_impure")
     jobs.append(((mod, cfg), dict(name=PID + "/rediff_impure", dump=False, check=False, workers=1, timeout=600, coverage=False)))
+    # vacuity guard of the decades: a forward that floors its parameters at lower bound + 1e-4 (the seeded C13-r3s2) must be told apart by a case below the floor
+    mod, cfg = write_mc(wd, "params", (), tier=ck.tier, name="params_floor", floor=-4)
+    jobs.append(((mod, cfg), dict(name=PID + "/params_floor", dump=False, check=False, workers=1, timeout=600, coverage=False)))
     res_all = tlc.run_many(jobs, parallel=3)
+    r_floor = res_all.pop()
+    ck.add_tlc(r_floor, "Quadrature params with a forward that floors the parameters at 1e-4 (must violate)")
+    mm = re.search(r"ParamsNoFloorOK is violated by the initial state:.*?members \|-> <<(.*?)>>,?\n", r_floor.stdout, re.S)      # (the harness keeps no trace for an initial state)
+    low = [int(x) for x in re.findall(r"\|-> (-?\d+)", mm.group(1))] if mm else []
+    if not r_floor.violation or r_floor.violation["name"] != "ParamsNoFloorOK" or not low or min(low) >= -4:
+        ck.vacuous("the parameter lattice does not distinguish a forward that floors its parameters at 1e-4 (violation %r, smallest exponent in the counterexample %s)" % (
+            (r_floor.violation or {}).get("name"), min(low) if low else None))
     r_imp = res_all.pop()
     ck.add_tlc(r_imp, "Quadrature rediff with an in-place write on ctx.denominator (must violate)")
     passes = max([len(st.get("out", {}).get("m", {}).get("hist", ())) for _, st in (r_imp.violation or {}).get("trace", [])] or [0])
     if not r_imp.violation or r_imp.violation["name"] != "RediffDerivOK" or passes < 2:
         ck.vacuous("the repeated-differentiation machine does not distinguish an impure backward (violation %r, passes in the counterexample %d)" % ((r_imp.violation or {}).get("name"), passes))
-    rs = dict(zip(("moments", "rule", "shapes", "lattice", "rediff"), res_all))
+    rs = dict(zip(PARTS, res_all))
     for part, r in rs.items():
         ck.add_tlc(r, "Quadrature " + part)
         if r.violation:
@@ -170,6 +187,26 @@ def run(ck):
     if not all(routes.values()) or not any(len(h) >= 2 for _, h in hists) or not any(h[0]["how"] == "jacobian" for _, h in hists):
         ck.vacuous("Quadrature rediff run: histories per route %s" % routes)
     items += rp.rediff_items(hists, ck.seed, thorough)
+    # ---- (5) parameter lattice: every case of part "params" ------------------------------------------------------------------------
+    pstates = rs["params"].states()
+    places = {}
+    for st in pstates:
+        if str(st["c"]["kind"]) == "param" and str(st["c"]["lik"]) not in places:
+            places[str(st["c"]["lik"])] = [[[int(x) for x in q] for q in pl] for pl in st["out"]["place"]]
+    if set(places) != {"Bernoulli", "Laplace", "StudentT", "Beta"}:
+        ck.vacuous("Quadrature params run covers the likelihoods %s" % sorted(places))
+    refs = {}
+    for r in core.pmap(rp.worker, rp.param_ref_items(DECADES, places), chunksize=1):
+        refs[tuple(r["pref"])] = dict(elp=r["elp"], lm=r["lm"])
+    p_items = rp.param_items(pstates, refs, ck.seed, thorough)
+    f_items = rp.func_items(pstates)
+    layouts = {(it["lik"], it["layout"]) for it in p_items}
+    lo = min(min(m.values()) for it in p_items for m in it["exps"] if m)
+    hi = max(max(m.values()) for it in p_items for m in it["exps"] if m)
+    mixed = sum(1 for it in p_items if it["layout"] == "batch")
+    if (lo, hi) != (DECADES[0], DECADES[-1]) or not mixed or len(f_items) != 2 * len(DECADES) or any((l, y) not in layouts for l in ("Laplace", "StudentT", "Beta") for y in ("scalar", "broadcast", "batch")):
+        ck.vacuous("Quadrature params run: decades %s..%s, %d mixed batches, %d function-decade items, layouts %s" % (lo, hi, mixed, len(f_items), sorted(layouts)))
+    items += p_items + f_items
     # ---- (b), (c), (d): reference comparisons -----------------------------------------------------------------------------------
     items += rp.cond_items(ck.seed, thorough)
     items += rp.bern_items(ck.seed, thorough)
@@ -187,7 +224,8 @@ def run(ck):
         counts[it["kind"]] = counts.get(it["kind"], 0) + 1
     ck.section("replay", **{"items_" + k: v for k, v in counts.items()})
     ck.section("tlc", moment_instances=len(exact), rule_states=len(rule_states), shape_cases=len(shape_cases), shape_cases_in_domain=n_ok,
-               lattice_cells=len(cells), lattice_cells_decided=sum(1 for c in cells if c["decided"]), rediff_maximal_histories=len(hists),
+               lattice_cells=len(cells), lattice_cells_decided=sum(1 for c in cells if c["decided"]), param_cases=len(pstates) - len(DECADES) ** 2 * 2, param_cases_mixed_batch=mixed,
+               param_decades="%d..%d" % (lo, hi), function_decade_cases=len(DECADES) ** 2 * 2, rediff_maximal_histories=len(hists),
                rediff_histories_log_normal_cdf=routes["log_normal_cdf"], rediff_histories_bernoulli_elp=routes["bernoulli_elp"], rediff_passes_per_graph_max=BW_MAX)
     ck.rule = ("cases = (a) TLC's exact integral of every (m, s, integer polynomial) instance x every num_locs whose degree bound covers it x how the "
                "rule object is built (default dtype float64, through the setting, inside a likelihood, float32 nodes cast to double) x batch layout, plus "
@@ -195,13 +233,19 @@ def run(ck):
                "(c) every cell of likelihood x method x setting-at-construction x setting-at-call x batch shape; (d) seeded conditional parameters, Bernoulli "
                "marginals, the fixed integral grid x {10, 20, 40} nodes, the log_normal_cdf grid; (e) every maximal history forward -> backward^k (k <= 3; upstream gradients, retain_graph, "
                "accumulation, Jacobian rows) of the machine of BackwardOps.tla x argument class x layout for log_normal_cdf (each history on its own slice of the grid) and for "
-               "BernoulliLikelihood.expected_log_prob; distinct = distinct abstract case; non-trivial = polynomial "
+               "BernoulliLikelihood.expected_log_prob; (f) every case of the parameter lattice (part params): likelihood x every parameter at lower bound + 10^e, e = -6..2, x route (setter / "
+               "initialize, tensor / float) x layout (scalar, one value broadcast over a batch, a batch mixing values >= MinSpread decades apart) x function shape, the "
+               "parameters READ from the returned conditional and both integrals at placements without truncation error against closed forms (Laplace) / scale-equivariant "
+               "mpmath references (Student-t, Beta) at 1e-9, plus the Bernoulli marginal / expected_log_prob over function means +-10^e and variances 10^e; distinct = distinct abstract case; non-trivial = polynomial "
                "degree >= 1 / a batched or broadcast shape / a non-default setting or batch / every reference comparison")
     ck.explanation = ("TLC is exhaustive over (i) the rational lattice of %d (m, s) points x %d integer polynomials (exact moments, recurrence = closed form = "
                       "Stein recurrence, central moments), (ii) the code-shaped rule for num_locs <= 3 on that lattice (exact to degree 2n-1, deficit "
                       "s^2n n! at degree 2n), (iii) all %d (num_locs, function shape, observation shape) triples of rank <= 2 over {1,2,3} of the forward shape/index "
                       "model, (iv) all %d cells of the likelihood lattice, (v) all histories forward -> backward^k (k <= 3) of the repeated-differentiation machine (part rediff, "
-                      "BackwardOps.tla): every pass reads the context the forward stored; with a backward modelled as writing to ctx.denominator TLC finds the two-pass counterexample.  "
+                      "BackwardOps.tla): every pass reads the context the forward stored; with a backward modelled as writing to ctx.denominator TLC finds the two-pass counterexample, "
+                      "(vi) the parameter lattice (part params): every likelihood parameter at lower bound + 10^e over the whole documented valid range x set route x scalar / broadcast / "
+                      "mixed-magnitude batch layout x function shape; the documented reading of the conditional's parameters is injective on the lattice (no clamp inside the valid range) "
+                      "and every result element reads exactly one member.  "
                       "Every TLC case is replayed into the real code against the spec's exact value.  "
                       "Everything else - truncation error on non-polynomial integrands, the accuracy of log_normal_cdf, conditional parameters, the probit "
                       "identity at real (m, v) - is a float64-vs-mpmath reference comparison on a fixed grid plus seeded samples; TLA+ only names the "
